@@ -164,6 +164,26 @@ func c01Units(ctx *core.Ctx) []core.Unit {
 				}
 			}
 		}
+		// longer pointer-sharing patterns: every set partition of 4 positions and selected ones of 5
+		// (positions with the same letter share one *Element; different letters are different polynomials)
+		pats := []string{"AAAA", "AAAB", "AABA", "ABAA", "ABBB", "AABB", "ABAB", "ABBA", "AABC", "ABAC", "ABCA", "ABBC", "ABCB", "ABCC", "ABCD",
+			"AABCB", "AABBC", "ABCAB", "ABACB", "AABAC", "ABCBA", "AABBA"}
+		for pi2, pat := range pats {
+			st := stmt{label: "vt"}
+			for i, ch := range pat {
+				k := int(ch - 'A')
+				st.polys = append(st.polys, []namedPoly{a, b, cpoly, polys[13]}[k])
+				st.share = append(st.share, k+1)
+				st.zs = append(st.zs, []int{7, 7, 200, 9, 7}[(i+pi2)%5])
+			}
+			c01Case(r, st, []int{0, 2, 16}[pi2%3], pi2%5 == 0)
+			st2 := st
+			st2.reprs = make([]int, len(pat))
+			for i := range st2.reprs {
+				st2.reprs[i] = 1 + int(pat[i]-'A')%3
+			}
+			c01Case(r, st2, 3, false)
+		}
 		for _, lb := range []string{"", "vt", "multiproof", string(make([]byte, 1100))} {
 			c01Case(r, stmt{label: lb, zs: []int{3, 200}, polys: []namedPoly{a, b}}, 0, true)
 		}
